@@ -244,3 +244,34 @@ def h_one_step(hk: int, ex: int) -> bool:
         return (after is hook or after == hook) and len(got) == 1 and got[0] is t and list(t.children) == ["a"]
     finally:
         sys.displayhook = saved
+
+
+@harness("C17", pre=lambda B, t, n, ex: len(t) <= B["L"] and -10 ** 6 <= n <= 10 ** 6 and 0 <= ex <= 1, bounds={"quick": {"L": 2}, "thorough": {"L": 4}},
+         shard={"ex": range(2)},
+         sym=["t: displayed string, str over all code points, len <= L", "n: displayed integer"], sel=["ex: exception after the displays"],
+         targets=["htmltools._core.wrap_displayhook_handler", "htmltools._core.Tag.__exit__"], timeout={"quick": 200, "thorough": 900})
+def h_display_values_sym(t: str, n: int, ex: int) -> bool:
+    """displayed strings and numbers become children under the normal child rules (whole string, str() of the number), in order"""
+    saved = sys.displayhook
+    got = []
+    sys.displayhook = got.append
+    try:
+        outer, inner = Tag("div"), Tag("p")
+        try:
+            with outer:
+                sys.displayhook(t)
+                with inner:
+                    sys.displayhook(n)
+                    sys.displayhook(RH(t))
+                sys.displayhook(t)
+                if ex == 1:
+                    raise Boom()
+        except Boom:
+            pass
+        if sys.displayhook != got.append or not (len(got) == 1 and got[0] is outer):
+            return False
+        kids, ik = list(outer.children), list(inner.children)
+        return len(kids) == 3 and kids[0] == t and kids[1] is inner and kids[2] == t and len(ik) == 2 and ik[0] == str(n) \
+            and isinstance(ik[1], HTML) and ik[1].as_string() == t
+    finally:
+        sys.displayhook = saved
